@@ -112,7 +112,7 @@ CHECKS = {
 
     'C18': dict(cat='other', tech='wire-taint dataflow over SSA IR of the six listener programs (necessary conditions only)',
                 text='PARTIAL. The property as a whole (no memory error, bounded time and liveness for every datagram sequence in programs '
-                     'doing socket and timer I/O) is out of reach of a sound static argument here. Decided clauses K1-K9: receive length <= '
+                     'doing socket and timer I/O) is out of reach of a sound static argument here. Decided clauses K1-K10: receive length <= '
                      'buffer size; constant-length copies stay inside their objects; a value read from the datagram (library getter on the '
                      'receive buffer, direct load, decoder out-parameter) is dominated by a bounding comparison before it is used as copy '
                      'length, object offset or VLA size; wire-stepped loops have a non-zero guard; no %s on receive-buffer bytes and no '
@@ -133,7 +133,8 @@ CHECKS = {
 
 IR_CHECKS = ('C01', 'C02', 'C03', 'C04', 'C05', 'C06', 'C07', 'C08', 'C09', 'C10', 'C11', 'C12', 'C15', 'C16', 'C17')
 CONFIGS = (' Build configurations: x86-64 (default flags of CMakeLists.txt), the -DNDEBUG configuration whenever its IR differs '
-           'from the default one, and i386 (little-endian ILP32). The functions analysed and their callees are also held '
+           'from the default one, and i386 with the front end in -O1 mode (lifetime markers, __OPTIMIZE__, llvm.is.constant), '
+           '__GNUC__ = 12 and unsigned plain char. The functions analysed and their callees are also held '
            'against what the public prototypes promise an optimising caller (const/pure/nonnull/aligned attributes vs. the '
            'bodies, macros shadowing functions, argument-evaluation-order hazards: DESIGN.md 4.21).')
 
